@@ -131,7 +131,7 @@ CaseOut(s) ==
   IN [good |-> \A r \in 1..Len(s.xs) : sols[r].mech,
       out  |-> [m |-> s.m, pi |-> s.pi, tr |-> s.tr, smap |-> s.smap, em |-> s.em, eden |-> EDen,
                 start |-> s.start, final |-> s.final, seqs |-> sols]]
-Report(res) == (Emit => PrintT(ToJson(res.out))) /\ res.good
+Report(res) == IF res.good THEN (Emit => PrintT(ToJson(res.out))) ELSE FALSE
 
 SolveCase ==
   /\ st.stage = "solve"
